@@ -209,6 +209,15 @@ def handle (st : St) (args : List String) (impl : String) : St × Verdict :=
     | some t =>
       (st, cmpModel (showBRes (validateReadFull K st.kmeta CT true t)) impl)
     | none => (st, .unknown)
+  -- `Transaction::validate(AsTransaction)`: the gates in the code's order (features first); the
+  -- harness answers `later` when the error comes from range proofs / signatures / kernel sums
+  | ["val", _, i] =>
+    match (nat? i).bind (fun i => st.txs[i]?) with
+    | some t =>
+      match txValidateGates K st.kmeta CT true .asTransaction t none with
+      | some e => (st, cmpModel (showBRes (some e)) impl)
+      | none => (st, cmpModel (if impl == "later" then "later" else "ok") impl)
+    | none => (st, .unknown)
   | ["agg", _, idx] =>
     match (parseNatList idx).bind st.getTxs with
     | some txs => (st, cmpSpec (showRes (aggregate K txs)) impl)
